@@ -2174,7 +2174,13 @@ pub(crate) fn skip_attributes<R: Reader>(
         loop {
             if let Some(len) = get_attribute_size(form, encoding) {
                 // We know the length of this attribute. Accumulate that length.
-                skip_bytes += R::Offset::from_u8(len);
+                // The accumulated length may start from an untrusted block length,
+                // so guard against overflow.
+                let new_skip_bytes = skip_bytes.wrapping_add(R::Offset::from_u8(len));
+                if new_skip_bytes < skip_bytes {
+                    return Err(Error::UnexpectedEof(input.offset_id()));
+                }
+                skip_bytes = new_skip_bytes;
                 break;
             }
 
